@@ -8,7 +8,7 @@ use std::cell::RefCell;
 use std::error::Error;
 use std::ffi::OsString;
 use std::io::{stderr, Write};
-use std::path::Path;
+use std::path::{Component, Path, PathBuf};
 use std::process::Command;
 
 use super::{Matcher, MatcherIO, WalkEntry};
@@ -16,6 +16,18 @@ use super::{Matcher, MatcherIO, WalkEntry};
 enum Arg {
     FileArg(Vec<OsString>),
     LiteralArg(OsString),
+}
+
+/// What `-execdir` passes for `{}`: `./` and the last component of the path. A
+/// path that ends in `..` (a starting point like `dir/..`) has no file name in
+/// the sense of `Path::file_name`, but its last component is still `..` and its
+/// parent is the directory the command runs in.
+fn execdir_argument(path: &Path) -> PathBuf {
+    match path.components().next_back() {
+        Some(Component::Normal(f)) => Path::new(".").join(f),
+        Some(Component::ParentDir) => Path::new(".").join(".."),
+        _ => Path::new(".").join(path),
+    }
 }
 
 pub struct SingleExecMatcher {
@@ -55,11 +67,7 @@ impl Matcher for SingleExecMatcher {
     fn matches(&self, file_info: &WalkEntry, _: &mut MatcherIO) -> bool {
         let mut command = Command::new(&self.executable);
         let path_to_file = if self.exec_in_parent_dir {
-            if let Some(f) = file_info.path().file_name() {
-                Path::new(".").join(f)
-            } else {
-                Path::new(".").join(file_info.path())
-            }
+            execdir_argument(file_info.path())
         } else {
             file_info.path().to_path_buf()
         };
@@ -150,11 +158,7 @@ impl MultiExecMatcher {
 impl Matcher for MultiExecMatcher {
     fn matches(&self, file_info: &WalkEntry, matcher_io: &mut MatcherIO) -> bool {
         let path_to_file = if self.exec_in_parent_dir {
-            if let Some(f) = file_info.path().file_name() {
-                Path::new(".").join(f)
-            } else {
-                Path::new(".").join(file_info.path())
-            }
+            execdir_argument(file_info.path())
         } else {
             file_info.path().to_path_buf()
         };
